@@ -32,3 +32,30 @@ Print Assumptions C18_initial_validators.
 Theorem C18_reimported_consistent s : derived_ok (reimported s) /\ set_ok (reimported s).
 Proof. exact (reimported_is_consistent s). Qed.
 Print Assumptions C18_reimported_consistent.
+
+(* ---- for every reachable state ---- *)
+From Goat Require Import Proofs.LockingDerived Proofs.LockingDerivedLink Proofs.LockingActive.
+
+(* every state reached by a history of block operations has consistent derived collections ... *)
+Theorem C18_reachable_derived p rem goat gas acc ops :
+  0 <= lp_slash_down p <= one18 -> 0 <= lp_slash_double p <= one18 -> Forall wf_op ops ->
+  derived_ok (lk_run (empty_lstate p rem goat gas acc) ops).
+Proof. exact (reachable_derived_ok p rem goat gas acc ops). Qed.
+Print Assumptions C18_reachable_derived.
+
+(* ... so at every block boundary (the state after a successful EndBlocker, which is where a node exports)
+   export followed by InitGenesis reproduces the state, and the validators handed to CometBFT are the
+   recorded set *)
+Theorem C18_reachable_round_trip p rem goat gas acc ops s' ups :
+  0 <= lp_slash_down p <= one18 -> 0 <= lp_slash_double p <= one18 -> Forall wf_op ops ->
+  end_block (lk_run (empty_lstate p rem goat gas acc) ops) = Ok (s', ups) ->
+  reimported s' = set_slashed s' (nonzero_slashed (l_slashed s')) /\
+  (forall a q, (a, q) ∈ import_validators (lk_export s') <-> l_set s' !! a = Some q).
+Proof.
+  intros H1 H2 W E.
+  assert (S : set_ok s') by (eapply reachable_set_ok; eauto).
+  destruct (reachable_all p rem goat gas acc ops H1 H2 W) as [D _].
+  assert (D' : derived_ok s') by (apply dinv_derived_ok; eapply end_block_inv; eauto).
+  split; [apply import_export; assumption|]. intros a q. apply initial_validators_are_recorded_set. exact S.
+Qed.
+Print Assumptions C18_reachable_round_trip.
